@@ -519,6 +519,33 @@ fn cold_ops(variant: usize) -> Vec<(String, Box<dyn Fn() -> String + Send + Sync
         crate::reference::bits::hex(&crate::reference::sha::sha256(h.as_bytes()))
     })));
     v.push(("shared program".into(), Box::new(|| fp_redeem(&shared_program()))));
+    // machines of several sizes created, run and dropped by all threads at once, many rounds (process-wide
+    // accounting of machines would live here)
+    for round in 0..24usize {
+        let n = [13usize, 14, 10, 16][round % 4];
+        v.push((format!("machine with a 2^{n}-bit frame, round {round}"), Box::new(move || {
+            let ty = match simplicity::types::Final::two_two_n(n) {
+                Ok(t) => t,
+                Err(e) => return format!("err:{e:?}"),
+            };
+            let r = types::Context::with_context(|ctx| {
+                let w = Arc::<simplicity::ConstructNode>::witness(&ctx, Some(Value::zero(&ty)));
+                // (nothing downstream destructs the word: pin the witness type by hand)
+                ctx.unify(&w.arrow().target, &types::Type::complete(&ctx, ty.clone()), "harness: witness type").map_err(|e| e.to_string())?;
+                Arc::<simplicity::ConstructNode>::comp(&w, &Arc::<simplicity::ConstructNode>::unit(&ctx)).map_err(|e| e.to_string())?.finalize_unpruned().map_err(|e| e.to_string())
+            });
+            match r {
+                Err(e) => format!("err:{e}"),
+                Ok(p) => match BitMachine::for_program(&p) {
+                    Err(e) => format!("limits:{e}"),
+                    Ok(mut m) => match m.exec(&p, &CoreEnv::new()) {
+                        Ok(v) => format!("ok:{}", v.ty()),
+                        Err(e) => format!("exec:{e}"),
+                    },
+                },
+            }
+        })));
+    }
     v.push(("infer + finalize".into(), Box::new(|| {
         types::Context::with_context(|ctx| {
             let w = Arc::<simplicity::ConstructNode>::witness(&ctx, Some(Value::u64(1)));
